@@ -125,6 +125,37 @@ int main(int argc, char **argv) {
     } break;
     case 17: { int r = 99; rc = _wcsicmp_s_chk(L"Straße", 10, L"STRASSE", 10, &r, (size_t)-1, (size_t)-1); failure = rc != 0; cleared = 1; } break;
     case 18: { int r = 99; rc = _wcsnatcmp_s_chk(L"file10", 10, L"FILE9", 10, 1, &r, (size_t)-1, (size_t)-1); failure = rc != 0; cleared = 1; } break;
+    /* every way out of the conversion while its scratch block is live */
+    case 19: rc = sprintf_s(dest, 8, "%-12ls", L"ab"); failure = rc < 0; cleared = dest[0] == 0; break;      /* trailing blanks do not fit */
+    case 20: rc = sprintf_s(dest, 8, "%12ls", L"ab"); failure = rc < 0; cleared = dest[0] == 0; break;       /* leading blanks do not fit */
+    case 21: rc = sprintf_s(dest, 4, "%ls", L"abcdefgh"); failure = rc < 0; cleared = dest[0] == 0; break;   /* the text does not fit */
+    case 22: rc = sprintf_s(dest, 64, "%-6ls|%5ls|%.2ls|", L"ab", L"cd", L"efgh"); failure = rc < 0; cleared = dest[0] == 0; break;
+    case 23: rc = snprintf_s(dest, 4, "%-9ls|", L"abcdef"); failure = rc < 0; cleared = dest[0] == 0; break; /* truncation */
+    case 24: rc = sprintf_s(dest, 4, "%Lf x", 1.5L); failure = rc < 0; cleared = dest[0] == 0; break;
+    case 25: rc = sprintf_s(dest, 4, "%Le y", 1.5L); failure = rc < 0; cleared = dest[0] == 0; break;
+    case 26: rc = sprintf_s(dest, 4, "%La z", 1.5L); failure = rc < 0; cleared = dest[0] == 0; break;
+    case 27: rc = sprintf_s(dest, 4, "%a w", 1.5); failure = rc < 0; cleared = dest[0] == 0; break;
+    case 28: { /* heap scratch, result does not fit */
+        rsize_t len = 0;
+        for (i = 0; i < 130; i++) wsrc[i] = 0xE9;
+        wsrc[130] = 0;
+        rc = wcsnorm_s(wdest, 140, wsrc, WCSNORM_NFD, &len); failure = rc != 0; cleared = wdest[0] == 0;
+    } break;
+    case 29: case 30: { /* reorder / compose buffers live, result does not fit */
+        rsize_t len = 0;
+        wsrc[0] = L'a';
+        for (i = 1; i <= 23; i++) wsrc[i] = (i % 2) ? 0x0301 : 0x0323;
+        wsrc[24] = 0;
+        rc = wcsnorm_s(wdest, 20, wsrc, sc == 30 ? WCSNORM_NFC : WCSNORM_NFD, &len); failure = rc != 0; cleared = wdest[0] == 0;
+    } break;
+    case 31: case 32: { /* a fold that outgrows its scratch string (8 x U+FB03 -> 24 elements, room for 22): 31 the second operand, 32 the first */
+        int r = 99;
+        static const wchar_t ffi[] = {0xFB03, 0xFB03, 0xFB03, 0xFB03, 0xFB03, 0xFB03, 0xFB03, 0xFB03, 0};
+        rc = sc == 31 ? _wcsicmp_s_chk(L"Straße", 10, ffi, 9, &r, (size_t)-1, (size_t)-1) : _wcsicmp_s_chk(ffi, 9, L"STRASSE", 10, &r, (size_t)-1, (size_t)-1);
+        failure = rc != 0; cleared = 1;
+    } break;
+    case 33: { int r = 99; rc = _wcsnatcmp_s_chk(L"file10", 10, L"FILE9", 2, 1, &r, (size_t)-1, (size_t)-1); failure = rc != 0; cleared = 1; } break;
+    case 34: { int r = 99; rc = _wcsnatcmp_s_chk(L"file10", 2, L"FILE9", 10, 1, &r, (size_t)-1, (size_t)-1); failure = rc != 0; cleared = 1; } break;
     default: fprintf(stderr, "unknown scenario\n"); return 2;
     }
     armed = 0;
